@@ -2,6 +2,7 @@ PROPS = ["CTV.Props.C17"]
 HARNESS = [
     dict(pkg="./submission/", test="TestVerifC17", synctest=True, race=True, timeout=900),
     dict(pkg="./submission/", test="TestVerifC17Dist", synctest=True, race=True, timeout=900),
+    dict(pkg="./ctpolicy/", test="TestVerifC17Policy", synctest=True, race=True, timeout=600),
 ]
 RULE = ("(a) random operation sequences (request / setResult sct|err / groupComplete / collectSCTs) on the real safeSubmissionState for "
         "Chrome-shaped, Apple-shaped and arbitrary group structures, every answer and periodic full state dumps compared with the model; "
